@@ -398,6 +398,68 @@ static std::string genCoin(SplitMix &g, bool dyadic, int mode, bool wantPen, boo
   return s.str();
 }
 
+// PLACE lines with a parameter tail (stream "placep"): the circuits of the "place" stream; global.noise exactly 0 in 60 % of the cases
+// (else 2 = the largest accepted, 1/1024, or the default), and each other field of GlobalPlacerParameters that check() constrains at a
+// value from its ACCEPTED boundary set with probability 25 % (the two ends of the accepted interval where it is closed, one step inside
+// where it is open, and an ordinary value).  gap/distance tolerances are both 0 in half of the cases, so that the run does not stop
+// at the first upper bound and steps with a penalty are taken.  Magnitudes stay moderate (penalty.initialValue in [2^-10, 4], <= 24
+// steps): no overflow in any of the five runs.
+struct PV { long long n, d; };
+static std::string genPlaceP(SplitMix &g) {
+  int nrows = (int)g.uni(2, 5), rowh = 8, nc = (int)g.uni(4, 24);
+  std::ostringstream s; std::vector<int> w(nc); long long tot = 0;
+  for (int c = 0; c < nc; ++c) { w[c] = (int)g.uni(2, 10); tot += w[c]; }
+  int W = (int)std::max<long long>(16, tot * (long long)g.uni(14, 30) / 10 / nrows);
+  static const int stepsel[] = {1, 2, 3, 4, 6, 9, 12, 16, 24};
+  int maxsteps = stepsel[g.uni(0, 8)];
+  s << "PLACE " << g.uni(1, 4) << " " << g.uni(1, 1000) << " " << maxsteps << " " << W << " " << nrows << " " << rowh << " " << nc;
+  for (int c = 0; c < nc; ++c) { bool f = g.coin(15); s << " " << w[c] << " " << (f ? 1 : 0) << " " << g.uni(0, std::max(0, W - w[c])) << " " << g.uni(0, nrows - 1) * rowh; }
+  int nn = (int)g.uni(nc / 2 + 1, 2 * nc); s << " " << nn;
+  for (int n = 0; n < nn; ++n) {
+    int np = (int)g.uni(2, 5); s << " " << np << " " << g.uni(1, 12);
+    for (int j = 0; j < np; ++j) { int c = (int)g.uni(0, nc - 1); s << " " << c << " " << g.uni(0, w[c]) << " " << g.uni(0, rowh); }
+  }
+  std::vector<std::pair<int, PV>> pv;
+  auto pick = [&](int id, std::initializer_list<PV> vals) { std::vector<PV> v(vals); pv.emplace_back(id, v[g.uni(0, (long long)v.size() - 1)]); };
+  const long long M = 1LL << 20;
+  if (g.coin(30)) pick(0, {{1, 1}, {2, 1}, {6, 1}, {9, 1}});                                        // effort
+  if (g.coin(60)) pv.push_back({9, {0, 1}}); else if (g.coin(70)) pick(9, {{2, 1}, {1, 1024}, {1, 1}});   // noise in [0, 2]
+  if (g.coin(50)) { pv.push_back({4, {0, 1}}); pv.push_back({5, {0, 1}}); }
+  else { if (g.coin(25)) pick(4, {{0, 1}, {1, 1}, {1, 1024}}); if (g.coin(25)) pick(5, {{0, 1}, {1, 1024}, {2, 1}}); }
+  if (maxsteps > 1 && g.coin(25)) pick(2, {{0, 1}, {1, 1}, {maxsteps - 1, 1}});                      // nbInitialSteps < maxNbSteps
+  else if (maxsteps == 1) pv.push_back({2, {0, 1}});
+  if (g.coin(25)) pick(3, {{1, 1}, {2, 1}, {3, 1}});                                                // nbStepsBeforeRoughLegalization >= 1
+  if (g.coin(25)) pick(6, {{1, 1024}, {1, 1}, {100, 1}});                                           // penaltyUpdateDistance > 0
+  if (g.coin(25)) pick(7, {{1, 1}, {2, 1}, {11, 10}});                                              // penaltyUpdateBackoff >= 1
+  if (g.coin(35)) pick(8, {{0, 1}, {1, 1}, {-1, 2}, {3, 2}, {1, 2}});                                // exportBlending in [-0.5, 1.5]
+  if (g.coin(25)) pick(10, {{1, 1000000}, {1, 1024}, {1, 1}, {1000, 1}});                            // cutoffDistance >= 1e-6
+  if (g.coin(25)) pick(11, {{8, 10}, {12, 10}, {1, 1}});                                            // in [0.8, 1.2]
+  if (g.coin(25)) pick(12, {{49, 100}, {101, 100}, {1, 2}, {1, 1}});                                 // areaExponent in [0.49, 1.01]
+  if (g.coin(25)) pick(13, {{M + 1, M}, {2 * M - 1, M}, {3, 2}});                                    // updateFactor in (1, 2)
+  if (g.coin(25)) pick(14, {{13421773, 1LL << 27}, {9227469, 1LL << 23}, {1, 1}, {1, 2}});           // in [0.1f, 1.1f]
+  if (g.coin(40)) pick(15, {{1, 1024}, {1, 64}, {1, 4}, {1, 1}, {4, 1}, {3, 100}});                   // initialValue > 0
+  if (g.coin(25)) pick(16, {{1, 1000000}, {1, 1024}, {1, 1}, {1000, 1}});                            // approximationDistance in [1e-6, 1e3]
+  if (g.coin(25)) pick(17, {{8, 10}, {12, 10}, {1, 1}});
+  if (g.coin(20)) pick(18, {{1, 1}, {2, 1}, {1000, 1}});                                            // maxNbConjugateGradientSteps >= 1
+  if (g.coin(20)) pick(19, {{1, 100000000}, {1, 1}, {1, 1000000}});                                  // CG tolerance in [1e-8, 1]
+  if (g.coin(30)) pick(20, {{0, 1}, {1, 1}, {3, 1}});                                               // roughLegalization.nbSteps >= 0
+  if (g.coin(25)) pick(21, {{1, 1}, {25, 1}, {5, 2}});                                              // binSize in [1, 25]
+  if (g.coin(25)) {
+    int combo = (int)g.uni(0, 4);                                                                   // reopt sizes/overlaps at their bounds
+    static const int cs[5][6] = {{1, 1, 1, 1, 2, 1}, {2, 1, 1, 1, 1, 1}, {1, 1, 2, 1, 1, 1}, {64, 63, 64, 1, 8, 7}, {1, 1, 1, 1, 1, 1}};
+    for (int j = 0; j < 6; ++j) pv.push_back({22 + j, {cs[combo][j], 1}});
+    if (combo == 4) { pv.push_back({30, {0, 1}}); pv.push_back({31, {1, 1}}); }                     // all 1: only with L1 + unidimensional
+  } else {
+    if (g.coin(25)) pick(30, {{0, 1}, {1, 1}, {2, 1}, {3, 1}, {4, 1}, {5, 1}});
+    if (g.coin(25)) pick(31, {{0, 1}, {1, 1}});
+  }
+  if (g.coin(25)) pick(28, {{0, 1}, {1, 1}, {1, 2}});                                               // quadraticPenalty in [0, 1]
+  if (g.coin(25)) pick(29, {{-1, 10}, {15099494, 1LL << 24}, {0, 1}, {1, 2}});                       // rl.targetBlending in [-0.1, 0.9f]
+  s << " " << pv.size();
+  for (auto &q : pv) s << " " << q.first << " " << q.second.n << " " << q.second.d;
+  return s.str();
+}
+
 int main(int argc, char **argv) {
   std::string mode = argc > 1 ? argv[1] : "run";
   if (mode == "gen") {
